@@ -25,6 +25,9 @@ func init() {
 			{ID: "C12.R7", Text: "a reopen resumes from the settled position: the tracked offset (sequence number with its own snapshot range) is never changed in place by later markers (same rule as C06.R3)", Run: c06r3},
 			{ID: "C12.R8", Text: "the latest settled position a reopen resumes from never moves backwards: Store ⇔ inRange ∧ (¬found ∨ new ≥ cur), whatever the branch ids (same rule as C04.R1)", Run: c04r1},
 			{ID: "C12.R9", Text: "ends during a cancelled shutdown are final because Close recorded the cancellation: the session flags: Close records its closeWithCancel argument (before closing streams) in the flag the end listener reads; stops the mitigation ⇔ ¬Disabled and the schedule ⇔ checkpoint≠nil; hands the finish token ⇔ ¬finishedWithEndEvent; open←true ends Open and open←false is stored by Close; Stream.Save is Checkpoint.Save; Open starts the schedule, whose loop saves under Type==auto", Run: sessionFlags},
+			{ID: "C12.R10", Text: "streams are opened, and counted, for the assigned vBuckets only: one opener per element of the list VBucketDiscovery.Get returned (same rule as C15.R3)", Run: c15r3},
+			{ID: "C12.R11", Text: "a reopened vBucket keeps being streamed: adopting the branch id a reopen returns never resets or lowers the persistence threshold (same rule as C07.R3)", Run: c07r3},
+			{ID: "C12.R12", Text: "the position a reopen resumes from is the acknowledged event's own: the function stored into ListenerContext.Ack moves the position to the offset of the event it was created for, exactly once (same rule as C04.R10)", Run: ackMoves},
 			{ID: "C12.R6", Text: "a reopened vBucket keeps being streamed: the observer that reopen reuses has its delivery/end switches thrown only by Stream.Close (same rule as C03.R6)", Run: switchOwner},
 		},
 	})
